@@ -1,5 +1,6 @@
 import RtenVerif.Lemmas.GemmImpl
 import RtenVerif.Lemmas.GemmPack
+import RtenVerif.Lemmas.GemmPrepack
 import RtenVerif.Generated.GemmConsts
 
 /-!
@@ -561,6 +562,58 @@ theorem c16_panels_match_tiles {t bs n i q : Nat} (ht : 0 < t) (hbs : bs = q * t
 
 example : (tileRange (blockRange 40 16 2).1 (blockRange 40 16 2).2 4).length = 2 ∧
     (packBSlots 4 3 (40 - 32)).length = 2 * (3 * 4) := by decide
+
+/-! ## Prepacked operands: `PackedMatrixBase::block`
+
+`prepack_a` / `prepack_b` write one packed block per depth block (`prepackABuf` / `prepackBBuf`);
+`gemm_impl` fetches `pm.block(row_range | col_range, depth_block_idx)`.  `t` is the panel size
+(`MR` resp. `NR`), `nm` the number of rows of A resp. columns of B, `s..e` a row/column block as
+`gemm_impl` forms them (start a multiple of `t`; end a multiple of `t` or the matrix end). -/
+
+/-- **The slice is inside the packed buffer**, for every block, every depth block (including the
+short tail block with its smaller panel stride), and has `ceil(e/t) − s/t` panels of the returned
+stride — as many as `gemm_block` has tiles for the block. -/
+theorem c16_prepacked_block_in_bounds {t nm K kc idx s e : Nat} (ht : 0 < t) (hkc : 0 < kc)
+    (hidx : idx * kc < K) (hse : s ≤ e) (he : e ≤ nm) :
+    ((prepackBase t nm K kc).block s e idx).1 ≤ ((prepackBase t nm K kc).block s e idx).2.1 ∧
+    ((prepackBase t nm K kc).block s e idx).2.1 ≤ (prepackBase t nm K kc).totalLen ∧
+    ((prepackBase t nm K kc).block s e idx).2.1 - ((prepackBase t nm K kc).block s e idx).1 =
+      (divCeil e t - s / t) * ((prepackBase t nm K kc).block s e idx).2.2 :=
+  prepacked_block_in_bounds ht hkc hidx hse he
+
+/-- **The slice is the packed block** (A): element `(x, k)` of panel `p` of the slice returned by
+`block(s..e, idx)` is element `(x, k)` of panel `p` of what `pack_a_block(rows s..e, depth block
+idx)` writes — the very panels `c16_packed_tile_dot` is about. -/
+theorem c16_prepacked_block_is_packed_block {α : Type} [Add α] [Mul α] [Zero α]
+    (A : Nat → Nat → α) {t nm K kc idx s e p x k : Nat} (ht : 0 < t) (hkc : 0 < kc)
+    (hidx : idx * kc < K) (hs : t ∣ s) (he : e ≤ nm) (hend : e = nm ∨ t ∣ e)
+    (hp : s / t + p < divCeil e t) (hx : x < t) (hk : k < blockDepth K kc idx) :
+    (prepackABuf A t nm K kc)[((prepackBase t nm K kc).block s e idx).1 +
+        (p * (t * blockDepth K kc idx) + (x * blockDepth K kc idx + k))]? =
+      (packAVals A t s e (idx * kc) (min (idx * kc + kc) K))[
+        p * (t * blockDepth K kc idx) + (x * blockDepth K kc idx + k)]? :=
+  prepackedA_block_is_packed_block A ht hkc hidx hs he hend hp hx hk
+
+/-- Same for B: the slice is what `pack_b_block(depth block idx, cols s..e)` writes. -/
+theorem c16_prepackedB_block_is_packed_block {α : Type} [Add α] [Mul α] [Zero α]
+    (B : Nat → Nat → α) {t nm K kc idx s e p k y : Nat} (ht : 0 < t) (hkc : 0 < kc)
+    (hidx : idx * kc < K) (hs : t ∣ s) (he : e ≤ nm) (hend : e = nm ∨ t ∣ e)
+    (hp : s / t + p < divCeil e t) (hy : y < t) (hk : k < blockDepth K kc idx) :
+    (prepackBBuf B t nm K kc)[((prepackBase t nm K kc).block s e idx).1 +
+        (p * (t * blockDepth K kc idx) + (k * t + y))]? =
+      (packBVals B t (idx * kc) (min (idx * kc + kc) K) s e)[
+        p * (blockDepth K kc idx * t) + (k * t + y)]? :=
+  prepackedB_block_is_packed_block B ht hkc hidx hs he hend hp hy hk
+
+example : (prepackBase 6 8 5 4).block 6 8 1 = (54, 60, 6) ∧ (prepackBase 6 8 5 4).totalLen = 60 := by
+  decide
+
+/-- The seeded variant C16_c (full `panel_stride` used for the start offset in the short tail
+depth block) is refuted: for an 8×5 operand, `MR = 6`, depth block 4, the second row panel of the
+tail block would be read at 72..78 in a buffer of 60 elements, instead of 54..60. -/
+theorem c16_prepacked_block_seedC_refuted :
+    ((prepackBase 6 8 5 4).blockSeedC 6 8 1).2.1 > (prepackBase 6 8 5 4).totalLen ∧
+    (prepackBase 6 8 5 4).blockSeedC 6 8 1 ≠ (prepackBase 6 8 5 4).block 6 8 1 := by decide
 
 /-- Summary of a `gemmPath` answer for the examples below: `(mc, nc, kc, #calls)` or the error. -/
 def pathSummary : Except GemmErr Path → Option (Nat × Nat × Nat × Nat) × Option GemmErr
